@@ -41,29 +41,37 @@ func b2u(b bool) uint64 {
 }
 
 func (m *Model) eval(t *Term) uint64 {
+	if t.Op == OVar {
+		return m.Vals[t.ID]
+	}
+	return evalNode(t, m.Eval)
+}
+
+// evalNode evaluates one non-variable node given an evaluator for its arguments.
+func evalNode(t *Term, ev func(*Term) uint64) uint64 {
 	w := t.Sort.W
 	switch t.Op {
 	case OVar:
-		return m.Vals[t.ID]
+		panic("evalNode on variable")
 	case ONot:
-		return 1 - m.Eval(t.Args[0])
+		return 1 - ev(t.Args[0])
 	case OAnd:
-		if m.Eval(t.Args[0]) == 0 {
+		if ev(t.Args[0]) == 0 {
 			return 0
 		}
-		return m.Eval(t.Args[1])
+		return ev(t.Args[1])
 	case OOr:
-		if m.Eval(t.Args[0]) != 0 {
+		if ev(t.Args[0]) != 0 {
 			return 1
 		}
-		return m.Eval(t.Args[1])
+		return ev(t.Args[1])
 	case OIte:
-		if m.Eval(t.Args[0]) != 0 {
-			return m.Eval(t.Args[1])
+		if ev(t.Args[0]) != 0 {
+			return ev(t.Args[1])
 		}
-		return m.Eval(t.Args[2])
+		return ev(t.Args[2])
 	case OEq:
-		a, b := m.Eval(t.Args[0]), m.Eval(t.Args[1])
+		a, b := ev(t.Args[0]), ev(t.Args[1])
 		if t.Args[0].Sort.K == KFP {
 			// SMT "=" on FP: identical values, all NaNs equal
 			fa, fb := math.Float64frombits(a), math.Float64frombits(b)
@@ -73,31 +81,31 @@ func (m *Model) eval(t *Term) uint64 {
 		}
 		return b2u(a == b)
 	case OBvNot:
-		return ^m.Eval(t.Args[0]) & mask(w)
+		return ^ev(t.Args[0]) & mask(w)
 	case OBvNeg:
-		return -m.Eval(t.Args[0]) & mask(w)
+		return -ev(t.Args[0]) & mask(w)
 	case OBvAnd, OBvOr, OBvXor, OBvAdd, OBvSub, OBvMul, OBvUDiv, OBvURem, OBvSDiv, OBvSRem, OBvShl, OBvLShr, OBvAShr:
-		v, _ := evalBin(t.Op, w, m.Eval(t.Args[0]), m.Eval(t.Args[1]))
+		v, _ := evalBin(t.Op, w, ev(t.Args[0]), ev(t.Args[1]))
 		return v
 	case OBvULt, OBvULe, OBvSLt, OBvSLe:
-		return b2u(evalCmp(t.Op, t.Args[0].Sort.W, m.Eval(t.Args[0]), m.Eval(t.Args[1])))
+		return b2u(evalCmp(t.Op, t.Args[0].Sort.W, ev(t.Args[0]), ev(t.Args[1])))
 	case OConcat:
-		return m.Eval(t.Args[0])<<uint(t.Args[1].Sort.W) | m.Eval(t.Args[1])
+		return ev(t.Args[0])<<uint(t.Args[1].Sort.W) | ev(t.Args[1])
 	case OExtract:
-		return (m.Eval(t.Args[0]) >> uint(t.Lo())) & mask(w)
+		return (ev(t.Args[0]) >> uint(t.Lo())) & mask(w)
 	case OZExt:
-		return m.Eval(t.Args[0])
+		return ev(t.Args[0])
 	case OSExt:
-		return uint64(sext(m.Eval(t.Args[0]), t.Args[0].Sort.W)) & mask(w)
+		return uint64(sext(ev(t.Args[0]), t.Args[0].Sort.W)) & mask(w)
 	case OSelect:
-		i := m.Eval(t.Args[0])
+		i := ev(t.Args[0])
 		n := uint64(len(t.Args) - 1)
 		if i >= n {
 			i = n - 1
 		}
-		return m.Eval(t.Args[1+i])
+		return ev(t.Args[1+i])
 	case OFAdd, OFSub, OFMul, OFDiv, OFMin, OFMax:
-		x, y := math.Float64frombits(m.Eval(t.Args[0])), math.Float64frombits(m.Eval(t.Args[1]))
+		x, y := math.Float64frombits(ev(t.Args[0])), math.Float64frombits(ev(t.Args[1]))
 		var r float64
 		switch t.Op {
 		case OFAdd:
@@ -115,7 +123,7 @@ func (m *Model) eval(t *Term) uint64 {
 		}
 		return math.Float64bits(r)
 	case OFNeg, OFAbs, OFSqrt, OFFloor, OFCeil, OFRoundRTZ:
-		x := math.Float64frombits(m.Eval(t.Args[0]))
+		x := math.Float64frombits(ev(t.Args[0]))
 		var r float64
 		switch t.Op {
 		case OFNeg:
@@ -133,7 +141,7 @@ func (m *Model) eval(t *Term) uint64 {
 		}
 		return math.Float64bits(r)
 	case OFLt, OFLe, OFEq:
-		x, y := math.Float64frombits(m.Eval(t.Args[0])), math.Float64frombits(m.Eval(t.Args[1]))
+		x, y := math.Float64frombits(ev(t.Args[0])), math.Float64frombits(ev(t.Args[1]))
 		switch t.Op {
 		case OFLt:
 			return b2u(x < y)
@@ -143,19 +151,19 @@ func (m *Model) eval(t *Term) uint64 {
 			return b2u(x == y)
 		}
 	case OFIsNaN:
-		return b2u(math.IsNaN(math.Float64frombits(m.Eval(t.Args[0]))))
+		return b2u(math.IsNaN(math.Float64frombits(ev(t.Args[0]))))
 	case OFIsInf:
-		return b2u(math.IsInf(math.Float64frombits(m.Eval(t.Args[0])), 0))
+		return b2u(math.IsInf(math.Float64frombits(ev(t.Args[0])), 0))
 	case OSIToFP:
-		return math.Float64bits(float64(sext(m.Eval(t.Args[0]), t.Args[0].Sort.W)))
+		return math.Float64bits(float64(sext(ev(t.Args[0]), t.Args[0].Sort.W)))
 	case OUIToFP:
-		return math.Float64bits(float64(m.Eval(t.Args[0])))
+		return math.Float64bits(float64(ev(t.Args[0])))
 	case OFPToSI:
-		return uint64(int64(math.Float64frombits(m.Eval(t.Args[0])))) & mask(w)
+		return uint64(int64(math.Float64frombits(ev(t.Args[0])))) & mask(w)
 	case OFPToUI:
-		return uint64(math.Float64frombits(m.Eval(t.Args[0]))) & mask(w)
+		return uint64(math.Float64frombits(ev(t.Args[0]))) & mask(w)
 	case OFFromBits:
-		return m.Eval(t.Args[0])
+		return ev(t.Args[0])
 	}
 	panic(fmt.Sprintf("eval: op %s", opNames[t.Op]))
 }
@@ -167,4 +175,71 @@ func (m *Model) Clone() *Model {
 		c.Vals[k] = v
 	}
 	return c
+}
+
+// Compiled is a topologically ordered cone for repeated evaluation (truth-table decisions).
+type Compiled struct {
+	nodes []*Term
+	slot  map[int]int
+	vals  []uint64
+	Vars  []*Term
+}
+
+func Compile(roots ...*Term) *Compiled {
+	c := &Compiled{slot: map[int]int{}}
+	type item struct {
+		t    *Term
+		done bool
+	}
+	var stack []item
+	for _, r := range roots {
+		stack = append(stack, item{r, false})
+	}
+	for len(stack) > 0 {
+		it := stack[len(stack)-1]
+		stack = stack[:len(stack)-1]
+		t := it.t
+		if _, ok := c.slot[t.ID]; ok {
+			continue
+		}
+		if !it.done && len(t.Args) > 0 {
+			stack = append(stack, item{t, true})
+			for _, a := range t.Args {
+				if _, ok := c.slot[a.ID]; !ok {
+					stack = append(stack, item{a, false})
+				}
+			}
+			continue
+		}
+		c.slot[t.ID] = len(c.nodes)
+		c.nodes = append(c.nodes, t)
+		if t.Op == OVar {
+			c.Vars = append(c.Vars, t)
+		}
+	}
+	c.vals = make([]uint64, len(c.nodes))
+	return c
+}
+
+func (c *Compiled) Size() int { return len(c.nodes) }
+
+// Run evaluates all nodes under the assignment (by variable ID) and returns a reader.
+func (c *Compiled) Run(assign map[int]uint64) func(*Term) uint64 {
+	get := func(t *Term) uint64 {
+		if t.Op == OConst {
+			return t.K
+		}
+		return c.vals[c.slot[t.ID]]
+	}
+	for i, t := range c.nodes {
+		switch t.Op {
+		case OConst:
+			c.vals[i] = t.K
+		case OVar:
+			c.vals[i] = assign[t.ID]
+		default:
+			c.vals[i] = evalNode(t, get)
+		}
+	}
+	return get
 }
